@@ -95,7 +95,7 @@ def pred_it_meno_fragment(case, v):
     if d.get('culture') not in ('it-it', 'nl-nl') or d.get('model') != 'number':
         return False
     word = 'meno' if d['culture'] == 'it-it' else 'min'
-    return all(str(x[2]).startswith(word) and not any(ch.isdigit() for ch in str(x[2])) for x in (d['first'], d['second']))
+    return all(str(x[2]).startswith(word) for x in (d['first'], d['second']))
 
 
 def pred_phone_bracketed_group(case, v):
